@@ -60,6 +60,10 @@ CLAIMED = {
    tech="TLC: CelJson Export totality and Import-after-Export theorems over all values of depth <=2 (CelDataMC); trace validation of Value::json() and of to_value(json(v)) on random values of every kind",
    text="Export is specified (arrays, objects keyed by key text, standard padded base64 written out in the spec, RFC 3339 text denoting the instant, nanosecond counts, null for non-finite doubles, errors for functions and durations beyond 64-bit ns) and TLC checks totality and the import/export round trip over all values of depth <=2 including colliding key texts. Every random value (depth<=5) exported by cel-rust must produce exactly that document or that error, never a panic, and importing it back must give an equal value on the JSON-native fragment.",
    note="Built with the cargo feature `json` (outside the 67-test baseline). " + NOTE_COMMON),
+ "C13": dict(cat="model_checking", ref="6 C13",
+   tech="TLC evaluates the literal grammars and exact decimal/binary rounding-interval test of CelNumLit/Dbl (laws checked in CelNumLitMC); trace validation of every boundary literal form and conversion executed by cel-rust",
+   text="Int/uint literals (decimal, hex, signed, u-suffixed) are specified by their exact BigInt denotation and range; a double literal or double(string) result is accepted iff it lies in the rounding interval of the exact decimal (decided with exact big-number comparison, no floating point), out-of-range literals must be compile errors; int()/uint()/double() are specified on exact values (truncation, NaN/inf/range errors). cel-rust is run on all boundary values and random 64-bit patterns in every literal form and through every conversion and string() round trip.",
+   note="This is the weaker fit for TLA+ (a transcribed function evaluated by TLC); the transcription is written from the CEL/IEEE definitions, not from the Rust, and its laws are checked in CelNumLitMC. " + NOTE_COMMON),
 }
 
 def main():
